@@ -278,6 +278,11 @@ func runDecodex(ctx *core.Ctx, tier string) {
 			texts["["+bt+"]"+ws] = true
 			texts["["+ws+bt+ws+"]"] = true
 		}
+		// every way to spell the string members: the value is what counts
+		for _, sp := range [][2]string{{`"/a"`, `"\/a"`}, {`"/a"`, `"\u002fa"`}, {`"/a"`, `"/\u0061"`}, {`"/a"`, `"/\ud83d\ude00"`}, {`"/a"`, `"/\ud800"`}, {`"/a"`, `"/\u00e9\t"`},
+			{`"` + k + `"`, `"\u00` + fmt.Sprintf("%02x", k[0]) + k[1:] + `"`}} {
+			texts["["+strings.Replace(bt, sp[0], sp[1], -1)+"]"] = true
+		}
 		for _, ws := range []string{"\f", "\v", "\xc2\xa0", "\x00"} {
 			texts[ws+"["+bt+"]"] = true
 			texts["["+bt+"]"+ws] = true
